@@ -1070,7 +1070,10 @@ pub fn step(cfg: &Cfg, sut: &mut Sut, m: &mut Model, pre: &Snapshot, op: Op, has
         // hidden through last_modified but looks alive to the access-order purge scan
         let same_reading = !u
             && post.valid_after.is_some()
-            && post.entries.iter().any(|x| x.last_accessed >= post.valid_after && x.last_modified < post.valid_after);
+            && (post.entries.iter().any(|x| x.last_accessed >= post.valid_after && x.last_modified < post.valid_after)
+                // ... or was such an entry while this maintenance run scanned (its hit was
+                // applied by this run) and has been evicted for size afterwards in the same run
+                || pre.read_ops.iter().any(|o| matches!(o, OpSnap::Hit { entry, timestamp, .. } if Some(*timestamp) >= post.valid_after && entry.last_modified < post.valid_after)));
         for e in &post.entries {
             let k = e.key as u8;
             let why = match dead(k) {
